@@ -81,8 +81,11 @@ ASSUMPTIONS = [
 
 def coqchk(ctx):
     t0 = time.time()
-    r = run(["coqchk", "-silent", "-o", "-Q", "theories", "LexVerif", "-Q", "gen", "LexVerif.Gen",
-             "LexVerif.%s" % CONE.get(ctx.prop, "Instance")], cwd=COQ, timeout=3000)
+    # the whole development (every property's cone is inside it): independent re-check of all .vo files
+    mods = ["EndToEndModel", "LexSpecProofs", "LexSpecFacts", "RuntimeLemmas", "DefParserProofs", "CharGenProofs",
+            "DriverProofs", "CharClassProofs", "ClassAlgProofs", "Instance"]
+    r = run(["coqchk", "-silent", "-o", "-Q", "theories", "LexVerif", "-Q", "gen", "LexVerif.Gen"]
+            + ["LexVerif.%s" % m for m in mods], cwd=COQ, timeout=3000)
     out = r.stdout
     ctx.coverage["coqchk"] = {"rc": r.returncode, "wall_s": round(time.time() - t0, 1), "tail": out[-600:]}
     if r.returncode != 0:
